@@ -826,6 +826,15 @@ type Step struct {
 	Call string `json:"call"` // Run | Parse | RunExpr
 	Src  string `json:"src"`
 	Flag bool   `json:"flag,omitempty"`
+	// Flip: before this step the host writes these seven switches into vm.Config (bit 0..6: CoC WoD Fate DC
+	// DisableStmts DisableNDice DisableBitwiseOp); from then on they are the configuration in force
+	Flip *int `json:"flip,omitempty"`
+}
+
+func withFlags(c vmx.Cfg, b int) vmx.Cfg {
+	c.CoC, c.WoD, c.Fate, c.DC = b&1 != 0, b&2 != 0, b&4 != 0, b&8 != 0
+	c.NoStmts, c.NoNDice, c.NoBitwise = b&16 != 0, b&32 != 0, b&64 != 0
+	return c
 }
 
 type HistCase struct {
@@ -838,8 +847,15 @@ func checkHistory(c HistCase, s *rt.Section) (*rt.Failure, int, int) {
 	vm.Config.CallbackSt = func(_type string, name string, val *ds.VMValue, extra *ds.VMValue, op string, detail string) {}
 	before := snapCfg(vm)
 	macroSteps, macroEffective := 0, 0
+	cur := c.Cfg
 	for i, st := range c.Steps {
 		where := fmt.Sprintf("step %d %s(%q)", i, st.Call, clip(st.Src, 160))
+		if st.Flip != nil {
+			cur = withFlags(cur, *st.Flip)
+			cur.Apply(vm)
+			before = snapCfg(vm)
+			where += fmt.Sprintf(" after the host set the switches to %s", cfgFlags(cur))
+		}
 		macro := hasMacro(st.Src)
 		if macro {
 			macroSteps++
@@ -860,10 +876,10 @@ func checkHistory(c HistCase, s *rt.Section) (*rt.Failure, int, int) {
 			if o.accepted {
 				if !macro {
 					// the text of this step was compiled with the VM's own flags, whatever ran before
-					if h := closedGateHit(o.code, "main", c.Cfg); h != nil {
-						return gateFailure(s, c, c.Cfg, h, o.code, where+": compiled program"), macroSteps, macroEffective
+					if h := closedGateHit(o.code, "main", cur); h != nil {
+						return gateFailure(s, c, cur, h, o.code, where+": compiled program"), macroSteps, macroEffective
 					}
-				} else if closedGateHit(o.code, "main", c.Cfg) != nil {
+				} else if closedGateHit(o.code, "main", cur) != nil {
 					macroEffective++
 				}
 			}
@@ -871,7 +887,10 @@ func checkHistory(c HistCase, s *rt.Section) (*rt.Failure, int, int) {
 		if d := before.diff(snapCfg(vm)); d != "" {
 			return s.NewFailure("config-unchanged", "config:"+firstField(d), c, where+": Context.Config changed: "+d, "Config after == Config before"), macroSteps, macroEffective
 		}
-		if sig, obs, exp := checkProbes(vm, c.Cfg); sig != "" {
+		if i+1 < len(c.Steps) && c.Steps[i+1].Flip != nil && c.Steps[i+1].Src == st.Src {
+			continue // the same text comes again right after the switches change: nothing is evaluated in between
+		}
+		if sig, obs, exp := checkProbes(vm, cur); sig != "" {
 			return s.NewFailure("probe-after-history", sig, c, "after "+where+": "+obs, exp), macroSteps, macroEffective
 		}
 	}
@@ -1334,12 +1353,26 @@ func TestProp(t *testing.T) {
 	})
 
 	run.Check("history", 2400, 30000,
-		"one VM, 1..5 evaluations (Run / Parse / RunExpr) of texts with `// #EnableDice <family> true|false` macros (spacing variants, unknown family names, the GUIDE's non-macro spelling) placed first, between statements, inside function bodies, template holes, blocks, before computed reads, switched on then off, and of macro-free texts (family uses, calls of functions defined under a macro, spellings, generated programs). After every step: Config equals its initial value field by field; 15 macro-free probes (2a5 a5 2a5k6m9 b2 p f 2c5 2c5m7, if/func/while, 3d d, 1|2 1&2) parsed on the same VM compile to exactly the gated instructions the configuration prescribes (none when the gate is closed); every macro-free step's own listing respects the closed gates; at the end a fresh VM passes the probes too. Non-trivial = at least one step has a macro and a later step (or probe) is macro-free; distinct by configuration + steps",
+		"one VM, 1..5 evaluations (Run / Parse / RunExpr; before one step in four the host writes a new set of the seven switches into the live VM's Config, and half of those steps evaluate the previous text again byte for byte with nothing in between: the switches in force when a text is compiled decide) of texts with `// #EnableDice <family> true|false` macros (spacing variants, unknown family names, the GUIDE's non-macro spelling) placed first, between statements, inside function bodies, template holes, blocks, before computed reads, switched on then off, and of macro-free texts (family uses, calls of functions defined under a macro, spellings, generated programs). After every step: Config equals its initial value field by field; 15 macro-free probes (2a5 a5 2a5k6m9 b2 p f 2c5 2c5m7, if/func/while, 3d d, 1|2 1&2) parsed on the same VM compile to exactly the gated instructions the configuration prescribes (none when the gate is closed); every macro-free step's own listing respects the closed gates; at the end a fresh VM passes the probes too. Non-trivial = at least one step has a macro and a later step (or probe) is macro-free; distinct by configuration + steps",
 		func(t *rapid.T, s *rt.Section) {
 			c := HistCase{Cfg: drawCfg(t)}
 			n := rapid.IntRange(1, 5).Draw(t, "nSteps")
+			cur := c.Cfg
 			for i := 0; i < n; i++ {
-				c.Steps = append(c.Steps, drawStep(t, s, c.Cfg))
+				st := drawStep(t, s, cur)
+				if i > 0 && rapid.IntRange(0, 3).Draw(t, "flip") == 0 {
+					// the host changes switches on the live VM; half of the time the previous text is evaluated again, byte for byte
+					b := rapid.IntRange(0, 127).Draw(t, "flipTo")
+					st.Flip = &b
+					cur = withFlags(cur, b)
+					if rapid.Bool().Draw(t, "sameText") {
+						st.Src = c.Steps[i-1].Src
+						if rapid.Bool().Draw(t, "sameCall") {
+							st.Call, st.Flag = c.Steps[i-1].Call, c.Steps[i-1].Flag
+						}
+					}
+				}
+				c.Steps = append(c.Steps, st)
 			}
 			s.Eval()
 			s.Crumb(c)
